@@ -30,6 +30,10 @@ CLAIMED = {
    text="A faithful executable Coq model of RadioTapParser / RadioTapWriter (write_option, build_padding_vector, update_paddings) and the RadioTap setters/getters over the options buffer, using the padding kernel and the metadata table REGENERATED from the source on every run; proved: the generated calculate_padding is the least aligning padding for every alignment/offset, the generated table has power-of-two alignments and positive sizes, reader alignment and writer padding agree. The extracted model and the real class run the same setter scripts (all orders of all subsets of <=3/4 of the 14 setters exhaustively, random sequences from default and parsed headers, wild raw options); a canonical-layout last-write reference judges the C++ directly incl. serialize + parse-back.",
    note="Trusted: Coq kernel, translators (cxx2gallina, gen_tables) + clang AST, extraction, harness/h_rt.cpp. The end-to-end theorem 'any setter sequence yields the canonical layout of the last-write map' is stated in DESIGN.md and currently decided by the exhaustive/random differential runs, not yet by a Coq refinement proof. Headers with extended present words are outside the model. Three defects repaired (fix: update_paddings offset, signal_quality width/field, out-of-bounds write on truncated parsed headers).",
    tech="Coq proof (generated kernel/table obligations) + faithful writer model in correspondence + canonical-layout oracle", ref="3/C11"),
+ 'C10': dict(
+   text="A faithful executable Coq model of DNS (constructor walkers, compose_name, the four section getters incl. A/AAAA/NS/CNAME/PTR/MX/SOA/opaque decoding, encode_domain_name, add_query/add_record with update_records/update_dname and their unchecked accesses as OOB outcomes, serialisation). Proved: a legal name with ANY number of labels laid down by the encoder is read back unchanged by compose_name wherever it sits; compose_name terminates within its fuel for every byte string and offset and fails only with the libtins DNS exception classes (never out of bounds). The extracted model and the real class run the same scripts (messages from a reference encoder with and without compression, random insertions, hostile mutations); an independent section reference judges the C++ after every edit and after serialize + re-parse.",
+   note="Trusted: Coq kernel, extraction, harness/h_dns.cpp, glibc text conversion for A/AAAA undone by the harness. The relocation theorem (sections preserved by insertions in the presence of pointers) is stated in DESIGN.md and currently decided by the differential runs, not by a Coq proof. Five defects repaired (update_dname off-by-one OOB, pointer threshold off by 12, label counter, compose_name over-read, SOA rdata relocation).",
+   tech="Coq proof (name codec round trip, termination/safety of name expansion) + faithful model in correspondence + section oracle", ref="3/C10"),
 }
 ALL = ['C%02d' % i for i in range(1, 20)]
 NA_REASON = "check not built yet in this session (machinery is being extended property by property; see DESIGN.md section 7)"
